@@ -217,6 +217,13 @@ var slotBuilders = []slotBuilder{
 	{"match-expr", "aggregate", aggWith(func(g *Gen, l func() *Node) []*Node {
 		return []*Node{ObjN("$match", ObjN("$expr", ObjN("$and", ArrN(ObjN("$eq", ArrN(g.Ref(), l())), ObjN("$gt", ArrN(g.Ref(), l()))))))}
 	})},
+	{"pipeline-stray-elements", "aggregate", aggWith(func(g *Gen, l func() *Node) []*Node {
+		// a pipeline the server rejects but still logs (failed command / error report): members that
+		// are not stage documents — a bare literal, an array — next to ordinary stages, at the top
+		// level and inside sub-pipelines. They are client-supplied literals inside the pipeline.
+		sub := ArrN(l(), ObjN("$match", ObjN("s", l())), ArrN(l()))
+		return []*Node{ObjN("$match", ObjN("a", l())), l(), ArrN(l(), ObjN("k", l())), ObjN("$facet", ObjN("fa", sub)), ObjN("$limit", KeepI(3)), l()}
+	})},
 	{"addFields-literal", "aggregate", aggWith(func(g *Gen, l func() *Node) []*Node {
 		return []*Node{ObjN(g.pick("$addFields", "$set"), ObjN("nf", l()))}
 	})},
